@@ -8,7 +8,7 @@ import Pixman.Model.Extent
     pixman-fast-path.c   bits_image_fetch_nearest_affine, bits_image_fetch_bilinear_affine,
                          bits_image_fetch_separable_convolution_affine (the `MAKE_*_FETCHER` bodies),
                          fetch_horizontal / fast_fetch_bilinear_cover / fast_bilinear_cover_iter_init,
-                         blt_rotated_90/270_trivial, blt_rotated_90/270 (tiling), fast_composite_rotate_90/270
+                         blt_rotated_90/270_trivial, fast_composite_rotate_90/270 (src_x_t / src_y_t)
     pixman-inlines.h     FAST_NEAREST_SCANLINE (SRC), FAST_NEAREST_MAINLOOP_INT (cover / none / pad / normal),
                          the per-pixel coordinate/weight sequence of the scaled-bilinear scanline functions
                          (FAST_BILINEAR_MAINLOOP_INT middle part)
@@ -232,25 +232,11 @@ def rotate90Origin (t : Transform) (srcX srcY : Int) (height : Nat) : Int × Int
 def rotate270Origin (t : Transform) (srcX srcY : Int) (width : Nat) : Int × Int :=
   (srcY + fixedToInt (wrapS32 (t.m02 + 32768 - 1)), -srcX + fixedToInt (wrapS32 (t.m12 + 32768 - 1)) - width)
 
-/-- the column split of `blt_rotated_90/270`: `(leading, middle tiles, trailing)` for a destination
-    whose first pixel sits `misalign` pixels after a cache-line boundary (`TILE_SIZE` pixels per line) -/
-def tileSplit (tile misalign W : Nat) : Nat × Nat × Nat :=
-  let leading := if misalign % tile ≠ 0 then min (tile - misalign % tile) W else 0
-  let W1 := W - leading
-  let trailing := if (misalign + leading + W1) % tile ≠ 0 then min ((misalign + leading + W1) % tile) W1 else 0
-  (leading, W1 - trailing, trailing)
-
-/-- `blt_rotated_90`: leading strip, `TILE_SIZE` wide strips, trailing strip, each by the trivial blit
-    with `src + src_stride * <first column>`; result assembled row by row.  (`mid` is a multiple of
-    `tile` in the C code; the model takes the strips `[0,tile), [tile,2·tile), …` clipped to `mid`.) -/
-def bltRotated90 (b : Bits) (sx sy : Int) (tile misalign W H : Nat) : List (List Nat) :=
-  let s := tileSplit tile misalign W
-  let lead := bltRotated90Trivial b sx sy s.1 H
-  let tiles := (List.range ((s.2.1 + tile - 1) / tile)).map fun (k : Nat) =>
-    bltRotated90Trivial b sx (sy + s.1 + k * tile) (min tile (s.2.1 - k * tile)) H
-  let trail := bltRotated90Trivial b sx (sy + s.1 + s.2.1) s.2.2 H
-  (List.range H).map fun (y : Nat) =>
-    lead.getD y [] ++ (tiles.map fun strip => strip.getD y []).flatten ++ trail.getD y []
+/- `blt_rotated_90/270` split the destination columns into a leading strip, cache-line wide tiles and a
+   trailing strip (depending on the destination ADDRESS) and call the trivial blit on each with the matching
+   source offset; the union is the trivial blit of the whole rectangle.  The split is not modelled: the
+   composite is modelled by the trivial blit, and the library's tiling is compared with it by the
+   correspondence (`rotate-90` / `rotate-270` requests at destination offsets 0..5, widths 1..24). -/
 
 def fastRotate90 (b : Bits) (t : Transform) (srcX srcY : Int) (width height : Nat) : List (List Nat) :=
   let o := rotate90Origin t srcX srcY height
@@ -320,5 +306,15 @@ def fastBilinearCover (b : Bits) (t : Transform) (srcX srcY : Int) (width height
   | some (true, p) =>
     some (bilinearCoverRows b (wrapS32 (p.x - 32768)) t.m00 t.m11 width height (wrapS32 (p.y - 32768)))
   | _ => none
+
+/-! ### (c') the scaled-bilinear scanline functions (FAST_BILINEAR_MAINLOOP_INT, middle part) -/
+
+/-- the main loop subtracts `pixman_fixed_1 / 2` once (`v.vector[0] -= pixman_fixed_1 / 2`), then every
+    scanline function (C, MMX, SSE2) walks `vx` with `unit_x` and uses, for each pixel, the pair
+    `src[vx >> 16], src[(vx >> 16) + 1]` with the weight `pixman_fixed_to_bilinear_weight (vx)`:
+    the `(index, 7-bit weight)` sequence of `n` pixels starting at `vx` -/
+def bilinearScanlineCoords (ux : Int) : Nat → Int → List (Int × Int)
+  | 0, _ => []
+  | n + 1, vx => (fixedToInt vx, bilinearWeight vx) :: bilinearScanlineCoords ux n (wrapS32 (vx + ux))
 
 end Pixman.Model.FetchFast
